@@ -883,16 +883,16 @@ fn main() {
         "streams",
         "well-formed command streams x two (segmentation, config) runs vs the one-command-per-read reference: reply count, reply sequence, byte identity of the two runs",
     );
-    s.run_cases("streams", s.scale(100_000, 3_000_000), || stream_case(false), check_stream);
+    s.run_cases("streams", s.scale(150_000, 3_000_000), || stream_case(false), check_stream);
     s.describe_check(
         "streams_with_triggers",
         "the same with commands that trip open crash findings mixed in (excluded and counted while those are open; ordinary streams once they are fixed)",
     );
-    s.run_cases("streams_with_triggers", s.scale(5_000, 100_000), || stream_case(true), check_stream);
+    s.run_cases("streams_with_triggers", s.scale(8_000, 100_000), || stream_case(true), check_stream);
     s.describe_check(
         "malformed",
         "a stream with one damaged frame: handler returns at EOF, no panic, earlier replies unchanged, the next reply is an error",
     );
-    s.run_cases("malformed", s.scale(60_000, 2_000_000), bad_case, check_bad);
+    s.run_cases("malformed", s.scale(100_000, 2_000_000), bad_case, check_bad);
     s.finish();
 }
